@@ -145,3 +145,5 @@ void L_blit_clip(Image* small, Image* big, const Image* source, ssize_t x, ssize
   POINT_D(big); Image_blit(big, source, x, y, w, h, sx, sy); }
 void l_fill_rect_clip(void) { Image *s, *b; IN_D IN_T IN_RECT; IN_RGBA; L_fill_rect_clip(s, b, in_x, in_y, in_w, in_h, in_r, in_g, in_b, in_a); VERIF_REACH(); }
 void l_blit_clip(void) { Image *s, *b; const Image* source; IN_D IN_S IN_T IN_BLIT; L_blit_clip(s, b, source, in_x, in_y, in_w, in_h, in_sx, in_sy); VERIF_REACH(); }
+void h_draw_line(void) { Image* self; IN_D ssize_t in_x0, in_y0, in_x1, in_y1; IN_RGBA; Image_draw_line(self, in_x0, in_y0, in_x1, in_y1, in_r, in_g, in_b, in_a); VERIF_REACH(); }
+void h_draw_line_c(void) { Image* self; IN_D ssize_t in_x0, in_y0, in_x1, in_y1; uint32_t in_c; Image_draw_line_c(self, in_x0, in_y0, in_x1, in_y1, in_c); VERIF_REACH(); }
